@@ -234,17 +234,8 @@ macro "tso_coreT " h:ident " [" fs:ident,* "]" : tactic => do
     inv_core $h [$fs,*]
     (try simp only [ownerLocked, carry, resetting, ownerFlight] at $ids:ident*)))
 
-macro "tso_simp_h" : tactic => `(tactic|
-  simp only [ownerLocked, carry, resetting, ownerFlight] at *)
 
-macro "tso_finish" : tactic => `(tactic| (
-    constructor
-    all_goals (try simp only [ownerLocked, carry, resetting, ownerFlight, upd_apply, applySto])
-    all_goals (first | assumption | grind [thiefLocked, mayBuf, notTrans, thiefFlight, popWin, List.length_dropLast] | grind [thiefLocked, mayBuf, notTrans, thiefFlight, popWin, List.length_dropLast, getLast?_tail_of_length, head?_append_of_ne, CarryShape, Pu2Shape, PofShape, Po6Shape, Po8Shape, Po9Shape, InsShape, Rc1Shape, Rc2Shape, RcPre, RcShape, Po5cShape, Cl2Shape, Cl3Shape, Wk4uShape, Vk5Shape, VuShape, TkfShape, Tk6Shape] | skip)))
 
-/-- the closing part of `tso_finish`, for proofs that treat some clauses by hand after `constructor` -/
-macro "tso_rest" : tactic => `(tactic| (
-    all_goals (first | assumption | grind [thiefLocked, mayBuf, notTrans, thiefFlight, popWin, List.length_dropLast] | grind [thiefLocked, mayBuf, notTrans, thiefFlight, popWin, List.length_dropLast, getLast?_tail_of_length, head?_append_of_ne, upd_apply, CarryShape, Pu2Shape, PofShape, Po6Shape, Po8Shape, Po9Shape, InsShape, Rc1Shape, Rc2Shape, RcPre, RcShape, Po5cShape, Cl2Shape, Cl3Shape, Wk4uShape, Vk5Shape, VuShape, TkfShape, Tk6Shape] | skip)))
 
 /-- a store at the head of the owner's buffer that no buffer-shape clause of this program counter allows -/
 macro "tso_absurd" : tactic => `(tactic|
@@ -259,10 +250,5 @@ macro "tso_shapes_core " h:ident hpc:ident : tactic => `(tactic| (
 
 macro "tso_absurd_core " h:ident hpc:ident : tactic => `(tactic| (exfalso; tso_shapes_core $h $hpc))
 
-/-- like `tso_finish`, with the shapes unfolded at once (flush steps) -/
-macro "tso_finish3" : tactic => `(tactic| (
-    constructor
-    all_goals (try simp only [ownerLocked, carry, resetting, ownerFlight, upd_apply, applySto])
-    all_goals (first | assumption | grind [thiefLocked, mayBuf, notTrans, thiefFlight, popWin, List.length_dropLast, getLast?_tail_of_length, head?_append_of_ne, upd_apply, CarryShape, Pu2Shape, PofShape, Po6Shape, Po8Shape, Po9Shape, InsShape, Rc1Shape, Rc2Shape, RcPre, RcShape, Po5cShape, Cl2Shape, Cl3Shape, Wk4uShape, Vk5Shape, VuShape, TkfShape, Tk6Shape] | skip)))
 
 end MythVerif.WsqTso
